@@ -78,6 +78,14 @@ WRONG_FOR_LIST = ({}, 7)
 WRONG_FOR_MAP = ([], 7)
 BAD_ITEMS = ({}, 7, None)
 UNKNOWN_TYPE = "NoSuchPrimitive"
+# keys to add to a fixed-schema object: an arbitrary one and keys that are legitimate in *other* objects of the format
+FOREIGN_KEYS = ("unknownKey", "entries", "data", "type", "center", "atleast", "w", "v", "sub:type", "bins:type", "values", "name", "bins:name")
+
+
+def _adds(out, path, allowed):
+    for k in FOREIGN_KEYS:
+        if k not in allowed:
+            out.append((path, "add", k))
 
 
 def sites(doc):
@@ -116,7 +124,7 @@ def _frag(T, f, path, out):  # noqa: PLR0912
     if T not in SCHEMA or not isinstance(f, dict):
         return
     req, _opt = SCHEMA[T]
-    out.append((path, "add", "unknownKey"))
+    _adds(out, path, set(req) | set(_opt))
     for k, kind in req.items():
         if k not in f:
             continue
@@ -158,7 +166,7 @@ def _frag(T, f, path, out):  # noqa: PLR0912
                     if not isinstance(item, dict):
                         continue
                     ipath = path + (k, i)
-                    out.append((ipath, "add", "unknownKey"))
+                    _adds(out, ipath, {"w", "v"} if kind[1] == "bagitem" else {kind[1], "data"})
                     if kind[1] == "bagitem":
                         out.append((ipath, "del", "w"))
                         out.append((ipath, "del", "v"))
@@ -182,7 +190,7 @@ def _frag(T, f, path, out):  # noqa: PLR0912
                     out.append((path + (k,), "set", (kk, bad)))
                 if isinstance(x, dict):
                     ipath = path + (k, kk)
-                    out.append((ipath, "add", "unknownKey"))
+                    _adds(out, ipath, {"type", "data"})
                     out.append((ipath, "del", "type"))
                     out.append((ipath, "del", "data"))
                     out.append((ipath, "set", ("type", UNKNOWN_TYPE)))
